@@ -121,7 +121,7 @@ func TestSetArithmeticModel(t *testing.T) {
 	stats.Rule(checkArith, "rapid state machine on one ds.SetArithmetic[uint16] with a fixed threshold 1-3 (threshold 1 also via the default) over 6 elements vs. a counter model; "+
 		"actions Add / Subtract / the two collectors on one shared result; mutations are drawn added/deleted lists, disjoint or (half of the cases) overlapping; "+
 		"oracle: reported added = elements whose counter rose to the threshold, deleted = fell below it, both-in-one-call cancels; the set maintained from the reports equals {e: count >= threshold}; "+
-		"distinct by (threshold, op list); non-trivial = history has an upward crossing, a downward crossing and (for threshold > 1 or overlapping mutations) more than one step")
+		"distinct by (threshold, op list); non-trivial = history has more than one step, an upward and a downward threshold crossing")
 
 	universe := []E{0, 1, 2, 3, 4, 5}
 	rapid.Check(t, func(rt *rapid.T) {
